@@ -45,6 +45,7 @@ Record node := Node {
   n_wd : Z;                 (* static: width given to this widget (= 'given' width as a Columns child) *)
   n_box : bool;             (* static: a Pile parent uses ('given', n_ht), else ('pack', None) *)
   n_ht : Z;
+  n_wt : Z;                 (* static: > 0: a box-mode Pile parent uses ('weight', n_wt) *)
   n_sel : bool;             (* leaf: selectable() *)
   n_keys : list (list Z);   (* leaf: keys it handles (returns None for) *)
   n_c : MonitoredList.state;           (* Pile/Columns/GridFlow contents, ListBox walker: child ids + focus *)
@@ -62,19 +63,19 @@ Record node := Node {
 }.
 
 Definition set_c (n : node) (c : MonitoredList.state) : node :=
-  Node (nk n) (n_wd n) (n_box n) (n_ht n) (n_sel n) (n_keys n) c (n_selc n) (n_pref n) (n_dv n) (n_cw n) (n_vs n)
+  Node (nk n) (n_wd n) (n_box n) (n_ht n) (n_wt n) (n_sel n) (n_keys n) c (n_selc n) (n_pref n) (n_dv n) (n_cw n) (n_vs n)
        (n_a n) (n_b n) (n_d n) (n_part n) (n_pend n) (n_vpend n).
 Definition set_selc (n : node) (b : bool) : node :=
-  Node (nk n) (n_wd n) (n_box n) (n_ht n) (n_sel n) (n_keys n) (n_c n) b (n_pref n) (n_dv n) (n_cw n) (n_vs n)
+  Node (nk n) (n_wd n) (n_box n) (n_ht n) (n_wt n) (n_sel n) (n_keys n) (n_c n) b (n_pref n) (n_dv n) (n_cw n) (n_vs n)
        (n_a n) (n_b n) (n_d n) (n_part n) (n_pend n) (n_vpend n).
 Definition set_pref (n : node) (p : pcol) : node :=
-  Node (nk n) (n_wd n) (n_box n) (n_ht n) (n_sel n) (n_keys n) (n_c n) (n_selc n) p (n_dv n) (n_cw n) (n_vs n)
+  Node (nk n) (n_wd n) (n_box n) (n_ht n) (n_wt n) (n_sel n) (n_keys n) (n_c n) (n_selc n) p (n_dv n) (n_cw n) (n_vs n)
        (n_a n) (n_b n) (n_d n) (n_part n) (n_pend n) (n_vpend n).
 Definition set_parts (n : node) (a : Z) (b d : oz) (part : Z) : node :=
-  Node (nk n) (n_wd n) (n_box n) (n_ht n) (n_sel n) (n_keys n) (n_c n) (n_selc n) (n_pref n) (n_dv n) (n_cw n) (n_vs n)
+  Node (nk n) (n_wd n) (n_box n) (n_ht n) (n_wt n) (n_sel n) (n_keys n) (n_c n) (n_selc n) (n_pref n) (n_dv n) (n_cw n) (n_vs n)
        a b d part (n_pend n) (n_vpend n).
 Definition set_pend (n : node) (p : pend) (v : bool) : node :=
-  Node (nk n) (n_wd n) (n_box n) (n_ht n) (n_sel n) (n_keys n) (n_c n) (n_selc n) (n_pref n) (n_dv n) (n_cw n) (n_vs n)
+  Node (nk n) (n_wd n) (n_box n) (n_ht n) (n_wt n) (n_sel n) (n_keys n) (n_c n) (n_selc n) (n_pref n) (n_dv n) (n_cw n) (n_vs n)
        (n_a n) (n_b n) (n_d n) (n_part n) p v.
 
 Definition heap := list node.
@@ -185,6 +186,35 @@ Fixpoint grid_rows_go (n : nat) (i maxcol cw hs : Z) (cur : list Z) : list (list
 Definition grid_rows (n : node) : list (list Z) :=
   grid_rows_go (length (items n)) 0 (n_wd n) (n_cw n) (n_dv n) [].
 
+(* how a Pile sizes child c: 0 ('pack'), 1 ('given', n_ht), 2 ('weight', n_wt) *)
+Definition child_opt (h : heap) (c : Z) : Z * Z :=
+  match getn h c with
+  | Some m => if n_box m then (1, n_ht m) else if 0 <? n_wt m then (2, n_wt m) else (0, 0)
+  | None => (0, 0)
+  end.
+(* Pile.get_item_rows, box mode: the rows left over go to the weighted items, int(remaining * w / wtotal + 0.5) each *)
+Fixpoint distribute (rowsf : Z -> Z) (h : heap) (its : list Z) (remaining wtotal : Z) : list Z :=
+  match its with
+  | [] => []
+  | c :: r =>
+      match child_opt h c with
+      | (2, w) => let rws := (2 * remaining * w + wtotal) / (2 * wtotal) in
+                  rws :: distribute rowsf h r (remaining - rws) (wtotal - w)
+      | (1, g) => g :: distribute rowsf h r remaining wtotal
+      | _ => rowsf c :: distribute rowsf h r remaining wtotal
+      end
+  end.
+(* the heights Pile.get_rows_sizes gives its children.  A Pile that is itself given n_ht rows (n_box) is a box
+   widget: weighted children share what pack / given children leave; in a flow Pile a weighted child is packed *)
+Definition pile_heights (rowsf : Z -> Z) (h : heap) (n : node) : list Z :=
+  let its := items n in
+  if n_box n && existsb (fun c => fst (child_opt h c) =? 2) its then
+    let fixed := fold_right (fun c acc => match child_opt h c with
+                                          | (2, _) => acc | (1, g) => g + acc | _ => rowsf c + acc end) 0 its in
+    let wtotal := fold_right (fun c acc => match child_opt h c with (2, w) => w + acc | _ => acc end) 0 its in
+    distribute rowsf h its (Z.max (n_ht n - fixed) 0) wtotal
+  else map (fun c => match child_opt h c with (1, g) => g | _ => rowsf c end) its.
+
 Fixpoint rows (fuel : nat) (h : heap) (id : Z) : Z :=
   match fuel with
   | O => 0
@@ -192,10 +222,9 @@ Fixpoint rows (fuel : nat) (h : heap) (id : Z) : Z :=
     match getn h id with
     | None => 0
     | Some n =>
-      let height c := match getn h c with Some m => if n_box m then n_ht m else rows f h c | None => 0 end in
       match nk n with
-      | KLeaf => 1
-      | KPile => fold_right (fun c acc => height c + acc) 0 (items n)
+      | KLeaf => if n_box n then 1 else Z.max 1 (n_ht n)     (* a flow leaf of n_ht rows *)
+      | KPile => fold_right Z.add 0 (pile_heights (rows f h) h n)
       | KCols => fold_right (fun c acc => match getn h c with
                                           | Some m => if n_box m then acc else Z.max (rows f h c) acc
                                           | None => acc end) 1 (items n)
@@ -204,8 +233,9 @@ Fixpoint rows (fuel : nat) (h : heap) (id : Z) : Z :=
       end
     end
   end.
-Definition height (fuel : nat) (h : heap) (c : Z) : Z :=
-  match getn h c with Some m => if n_box m then n_ht m else rows fuel h c | None => 0 end.
+Definition heights (fuel : nat) (h : heap) (n : node) : list Z := pile_heights (rows fuel h) h n.
+Definition height_at (fuel : nat) (h : heap) (n : node) (j : Z) : Z :=
+  match nthz (heights fuel h n) j with Some r => r | None => 0 end.
 
 (* ---------- Columns.move_cursor_to_coords: which column ---------- *)
 Definition col_gt (x : Z) (col : pcol) : bool := match col with PInt c => c <? x | _ => false end.
@@ -232,9 +262,39 @@ Fixpoint cols_pick_go (l : list (Z * bool)) (i x dv : Z) (col : pcol) (best : op
 Definition cols_pick (l : list (Z * bool)) (dv : Z) (col : pcol) : option (Z * Z * Z) := cols_pick_go l 0 0 dv col None.
 
 Definition child_wd (h : heap) (c : Z) : Z := match getn h c with Some m => n_wd m | None => 0 end.
+(* Columns.column_widths when every column fits: ('given', n_wd) columns keep their width; ('weight', n_wt) columns
+   start at min_width = 1 and share what is left, in order of (weight, index), int(grow * w / wtotal + 0.5) each *)
+Definition child_cwt (h : heap) (c : Z) : Z := match getn h c with Some m => if 0 <? n_wt m then n_wt m else 0 | None => 0 end.
+Fixpoint ins_wi (x : Z * Z) (l : list (Z * Z)) : list (Z * Z) :=
+  match l with
+  | [] => [x]
+  | y :: r => if (fst x <? fst y) || ((fst x =? fst y) && (snd x <=? snd y)) then x :: y :: r else y :: ins_wi x r
+  end.
+Fixpoint share_grow (l : list (Z * Z)) (grow wtotal : Z) : list (Z * Z) :=      (* (index, width) *)
+  match l with
+  | [] => []
+  | (w, i) :: r => let width := Z.max ((2 * grow * w + wtotal) / (2 * wtotal)) 1 in
+                   (i, width) :: share_grow r (grow - width) (wtotal - w)
+  end.
+Fixpoint assoc_z (l : list (Z * Z)) (i : Z) : oz :=
+  match l with [] => None | (k, v) :: r => if k =? i then Some v else assoc_z r i end.
+Fixpoint number_from (i : Z) (l : list Z) : list (Z * Z) :=
+  match l with [] => [] | c :: r => (i, c) :: number_from (i + 1) r end.
+Definition cols_widths (h : heap) (n : node) : list Z :=
+  let its := number_from 0 (items n) in
+  let static ic := if 0 <? child_cwt h (snd ic) then 1 else child_wd h (snd ic) in
+  let weighted := fold_right (fun ic acc => if 0 <? child_cwt h (snd ic) then ins_wi (child_cwt h (snd ic), fst ic) acc else acc) [] its in
+  let shared := n_wd n + n_dv n - fold_right (fun ic acc => static ic + n_dv n + acc) 0 its in
+  if (shared =? 0) || (match weighted with [] => true | _ => false end) then map static its
+  else
+    let wtotal := fold_right (fun wi acc => fst wi + acc) 0 weighted in
+    let got := share_grow weighted (shared + zlen weighted) wtotal in
+    map (fun ic => match assoc_z got (fst ic) with Some w => w | None => static ic end) its.
+Definition col_width (h : heap) (n : node) (idx : Z) : Z :=
+  match nthz (cols_widths h n) idx with Some w => w | None => 0 end.
 (* left edge of column idx *)
 Definition col_x (h : heap) (n : node) (idx : Z) : Z :=
-  fold_right (fun c acc => child_wd h c + acc) 0 (takez idx (items n)) + idx * n_dv n.
+  fold_right Z.add 0 (takez idx (cols_widths h n)) + idx * n_dv n.
 
 (* ---------- GridFlow display widget helpers (regenerated by every GridFlow method) ---------- *)
 Fixpoint find_row (rows : list (list Z)) (r : Z) (f : Z) : option (Z * list Z) :=
@@ -342,7 +402,7 @@ Fixpoint gpc (fuel : nat) (id : Z) : M pcol :=
           n' <- rd id ;;
           h' <- get_heap ;;
           ret (match (match col with PNone => n_pref n' | c => c end) with
-               | PNone => if sel f h' w then PInt (child_wd h' w / 2 + off) else PNone
+               | PNone => if sel f h' w then PInt (col_width h' n (nfocus n) / 2 + off) else PNone
                | c => c end)
         end
     | KGrid =>                                            (* GridFlow.get_pref_col -> display Pile.get_pref_col *)
@@ -363,11 +423,10 @@ Definition upd_pref_from_focus (f : nat) (id : Z) : M unit :=
   end.
 
 (* ---------- move_cursor_to_coords ---------- *)
-Fixpoint pile_row_hit (fuel : nat) (h : heap) (l : list Z) (j wrow row : Z) : option (Z * Z * Z) :=
-  match l with
-  | [] => None
-  | c :: r => let rr := height fuel h c in
-              if row <? wrow + rr then Some (j, c, wrow) else pile_row_hit fuel h r (j + 1) (wrow + rr) row
+Fixpoint pile_row_hit (l : list Z) (hs : list Z) (j wrow row : Z) : option (Z * Z * Z) :=
+  match l, hs with
+  | c :: r, rr :: hr => if row <? wrow + rr then Some (j, c, wrow) else pile_row_hit r hr (j + 1) (wrow + rr) row
+  | _, _ => None
   end.
 
 Fixpoint mc (fuel : nat) (id : Z) (col : pcol) (row : Z) : M bool :=
@@ -379,7 +438,7 @@ Fixpoint mc (fuel : nat) (id : Z) (col : pcol) (row : Z) : M bool :=
     | KPile =>                                            (* Pile.move_cursor_to_coords *)
         w_pref id col ;;;
         h <- get_heap ;;
-        match pile_row_hit f h (items n) 0 0 row with
+        match pile_row_hit (items n) (heights f h n) 0 0 row with
         | None => ret false
         | Some (j, c, wrow) =>
             if negb (sel f h c) then ret false else
@@ -389,7 +448,7 @@ Fixpoint mc (fuel : nat) (id : Z) (col : pcol) (row : Z) : M bool :=
         end
     | KCols =>                                            (* Columns.move_cursor_to_coords *)
         h <- get_heap ;;
-        match cols_pick (map (fun c => (child_wd h c, sel f h c)) (items n)) (n_dv n) col with
+        match cols_pick (combine (cols_widths h n) (map (sel f h) (items n))) (n_dv n) col with
         | None => ret false
         | Some (j, xx, e) =>
             match nthz (items n) j with
@@ -517,7 +576,7 @@ Fixpoint pile_move (f : nat) (id : Z) (up : bool) (cands : list Z) : M bool :=
       | None => raise EBad
       | Some c =>
           if negb (sel f h c) then pile_move f id up r else
-          let rws := height f h c in
+          let rws := height_at f h n j in
           upd_pref_from_focus f id ;;;
           w_focus id j ;;;
           h2 <- get_heap ;;
@@ -702,7 +761,7 @@ Fixpoint rn_list (rnf : Z -> bool -> M (list Z)) (keep : Z -> bool) (l : list Z)
   match l with
   | [] => ret []
   | c :: r =>
-      a <- (if keep c then rnf c (focus && (j =? fi)) else ret []) ;;
+      a <- (if keep j then rnf c (focus && (j =? fi)) else ret []) ;;
       b <- rn_list rnf keep r (j + 1) fi focus ;;
       ret (a ++ b)
   end.
@@ -720,7 +779,7 @@ Fixpoint rn (fuel : nat) (id : Z) (focus : bool) : M (list Z) :=
     n <- rd id ;;
     match nk n with
     | KLeaf => ret (if focus then [id] else [])
-    | KPile => h <- get_heap ;; rn_list (rn f) (fun c => 0 <? height f h c) (items n) 0 (nfocus n) focus
+    | KPile => h <- get_heap ;; rn_list (rn f) (fun j => 0 <? height_at f h n j) (items n) 0 (nfocus n) focus
     | KCols | KGrid => rn_list (rn f) (fun _ => true) (items n) 0 (nfocus n) focus
     | KFrame =>
         h <- get_heap ;;
@@ -834,7 +893,7 @@ Definition del_part (id : Z) (part : Z) : M unit :=
 
 (* ---------- construction ---------- *)
 Definition blank (k : kind) (wd : Z) (box : bool) (ht : Z) : node :=
-  Node k wd box ht false [] (MonitoredList.St [] 0) false PNone 0 0 0 0 None None 100 PendNone false.
+  Node k wd box ht 0 false [] (MonitoredList.St [] 0) false PNone 0 0 0 0 None None 100 PendNone false.
 
 Fixpoint first_sel (fuel : nat) (h : heap) (l : list Z) (j : Z) : oz :=
   match l with [] => None | c :: r => if sel fuel h c then Some j else first_sel fuel h r (j + 1) end.
@@ -853,28 +912,28 @@ Definition init_grid (fuel : nat) (h : heap) (ch : list Z) (f : oz) : MonitoredL
             | None => 0 end).
 
 Inductive spec :=
-  | SLeaf (wd : Z) (box : bool) (ht : Z) (sl : bool) (keys : list (list Z))
-  | SList (k : kind) (wd : Z) (box : bool) (ht : Z) (f : oz) (ch : list Z) (dv cw vs : Z)
-  | SFrame (wd : Z) (box : bool) (ht : Z) (body : Z) (hd ft : oz) (part : Z)
-  | SOvl (wd : Z) (box : bool) (ht : Z) (top bot : Z).
+  | SLeaf (wd : Z) (box : bool) (ht wt : Z) (sl : bool) (keys : list (list Z))
+  | SList (k : kind) (wd : Z) (box : bool) (ht wt : Z) (f : oz) (ch : list Z) (dv cw vs : Z)
+  | SFrame (wd : Z) (box : bool) (ht wt : Z) (body : Z) (hd ft : oz) (part : Z)
+  | SOvl (wd : Z) (box : bool) (ht wt : Z) (top bot : Z).
 
 Definition construct (fuel : nat) (h : heap) (s : spec) : node :=
   match s with
-  | SLeaf wd box ht sl keys =>
-      Node KLeaf wd box ht sl keys (MonitoredList.St [] 0) false PNone 0 0 0 0 None None 100 PendNone false
-  | SList k wd box ht f ch dv cw vs =>
+  | SLeaf wd box ht wt sl keys =>
+      Node KLeaf wd box ht wt sl keys (MonitoredList.St [] 0) false PNone 0 0 0 0 None None 100 PendNone false
+  | SList k wd box ht wt f ch dv cw vs =>
       match k with
-      | KPile => Node KPile wd box ht false [] (init_list fuel h ch f) (existsb (sel fuel h) ch) (PInt 0) 0 0 0 0 None None 100 PendNone false
-      | KCols => Node KCols wd box ht false [] (init_list fuel h ch f) (existsb (sel fuel h) ch) PNone dv 0 0 0 None None 100 PendNone false
-      | KGrid => Node KGrid wd box ht false [] (init_grid fuel h ch f) false PNone dv cw vs 0 None None 100 PendNone false
-      | _ => Node KLBox wd box ht false []
+      | KPile => Node KPile wd box ht wt false [] (init_list fuel h ch f) (existsb (sel fuel h) ch) (PInt 0) 0 0 0 0 None None 100 PendNone false
+      | KCols => Node KCols wd box ht wt false [] (init_list fuel h ch f) (existsb (sel fuel h) ch) PNone dv 0 0 0 None None 100 PendNone false
+      | KGrid => Node KGrid wd box ht wt false [] (init_grid fuel h ch f) false PNone dv cw vs 0 None None 100 PendNone false
+      | _ => Node KLBox wd box ht wt false []
                   (match f, ch with Some j, _ :: _ => st_apply (MonitoredList.St ch 0) (MonitoredList.SetFocus j) | _, _ => MonitoredList.St ch 0 end)
                   false PLeft 0 0 0 0 None None 100 PendFirst false
       end
-  | SFrame wd box ht body hd ft part =>
-      Node KFrame wd box ht false [] (MonitoredList.St [] 0) false PNone 0 0 0 body hd ft part PendNone false
-  | SOvl wd box ht top bot =>
-      Node KOvl wd box ht false [] (MonitoredList.St [] 0) false PNone 0 0 0 top (Some bot) None 100 PendNone false
+  | SFrame wd box ht wt body hd ft part =>
+      Node KFrame wd box ht wt false [] (MonitoredList.St [] 0) false PNone 0 0 0 body hd ft part PendNone false
+  | SOvl wd box ht wt top bot =>
+      Node KOvl wd box ht wt false [] (MonitoredList.St [] 0) false PNone 0 0 0 top (Some bot) None 100 PendNone false
   end.
 Definition build (fuel : nat) (specs : list spec) : heap :=
   fold_left (fun h s => h ++ [construct fuel h s]) specs [].
@@ -1041,19 +1100,19 @@ Definition dec_kind (z : Z) : kind :=
 
 Definition dec_spec (l : list Z) : option (spec * list Z) :=
   match l with
-  | k :: wd :: box :: ht :: r =>
+  | k :: wd :: box :: ht :: wt :: r =>
       if k =? 0 then
         match r with
         | sl :: nk :: r1 =>
             match dec_keys (Z.to_nat nk) r1 with
-            | Some (ks, r2) => Some (SLeaf wd (dec_bool box) ht (dec_bool sl) ks, r2)
+            | Some (ks, r2) => Some (SLeaf wd (dec_bool box) ht wt (dec_bool sl) ks, r2)
             | None => None end
         | _ => None end
       else if (k =? 1) || (k =? 2) || (k =? 3) || (k =? 6) then
         match dec_oz r with
         | Some (f, dv :: cw :: vs :: r1) =>
             match dec_list r1 with
-            | Some (ch, r2) => Some (SList (dec_kind k) wd (dec_bool box) ht f ch dv cw vs, r2)
+            | Some (ch, r2) => Some (SList (dec_kind k) wd (dec_bool box) ht wt f ch dv cw vs, r2)
             | None => None end
         | _ => None end
       else if k =? 4 then
@@ -1061,13 +1120,13 @@ Definition dec_spec (l : list Z) : option (spec * list Z) :=
         | body :: r1 =>
             match dec_oz r1 with
             | Some (hd, r2) => match dec_oz r2 with
-                               | Some (ft, part :: r3) => Some (SFrame wd (dec_bool box) ht body hd ft part, r3)
+                               | Some (ft, part :: r3) => Some (SFrame wd (dec_bool box) ht wt body hd ft part, r3)
                                | _ => None end
             | None => None end
         | _ => None end
       else if k =? 5 then
         match r with
-        | top :: bot :: r1 => Some (SOvl wd (dec_bool box) ht top bot, r1)
+        | top :: bot :: r1 => Some (SOvl wd (dec_bool box) ht wt top bot, r1)
         | _ => None end
       else None
   | _ => None
